@@ -5,7 +5,7 @@ from vcheck import parse_edges, write_json, InfraError
 META = {
     "property_id": "C07",
     "level": "model_checking",
-    "technique": "TLA+ spec of trie commit over path- and hash-scheme node stores (TrieCommit.tla over MPT.tla) and of the mechanism producing the node set (TrieCommitMech.tla: dirty flags, opTracer, PrevalueTracer, committer walk; refinement checked) model-checked with TLC; every Commit transition and TLC-simulated multi-generation behaviours replayed on trie.Commit / trienode.NodeSet / rawdb key space / StackTrie",
+    "technique": "TLA+ spec of trie commit over path- and hash-scheme node stores (TrieCommit.tla over MPT.tla) and of the mechanism producing the node set (TrieCommitMech.tla: dirty flags, opTracer, PrevalueTracer, committer walk; refinement checked) model-checked with TLC; every Commit transition and TLC-simulated multi-generation behaviours replayed on trie.Commit / trienode.NodeSet / rawdb key space / StackTrie; recorded 32-byte-key histories validated against TrieCommitTrace.tla",
     "text": "TLC explores all (base set, modified set) pairs and commit generations over small key universes: after every commit the path store equals StoredPaths of the canonical new trie (no stale, no missing node), the new root reads back exactly the new contents, every node-set entry is allowed and carries the stored previous blob, and under the hash scheme all committed roots stay readable. Each Commit transition is executed on the real code (base committed from empty into rawdb memory stores, reopened under path or hash scheme, modified along a seeded route with cancelling detours, committed): node-set entries, previous values, minimal set inclusion, the rawdb trie-node key space listing (paths and reference-encoded blobs), read-back of new and earlier roots and the StackTrie OnTrieNode emission are compared with the model.",
     "note": "Trusts TLC, triekit's reference encoder and RawStore (applies node sets with rawdb.WriteTrieNode/DeleteTrieNode). TrieCommit's node set is the minimal one (the implementation may additionally rewrite unchanged nodes with identical content: Allowed); TrieCommitMech predicts the node set exactly, and the simulated behaviours are compared entry by entry. In the simulated behaviours the same node sets are also fed to real triedb path- and hash-scheme databases (Update + Commit) and every stored node / the complete contents are read back through them; pathdb's internal layering and disk key space are the subject of C16-C20, not of this check.",
     "design_ref": "3.2 C07",
@@ -45,5 +45,11 @@ def run(ctx):
         bp = os.path.join(ctx.scratch, os.path.basename(cfg) + ".json")
         write_json(bp, beh)
         ctx.drive(drv, ["-mode", "sim", "-in", bp, "-pad", pad, "-nib", nib, "-keylen", 3, "-triedb"], name="c07-sim-" + os.path.basename(cfg), timeout=T)
-    return ctx.finish(rule="MC: all (base, modified) key-value set pairs over 4 two-nibble keys with two value sizes, 3 hash-scheme generations; R: all Commit edges + simulated multi-generation behaviours",
+    # V: recorded multi-generation histories over 32-byte keys validated by TrieCommitTrace.tla
+    tp = os.path.join(ctx.scratch, "trace.ndjson")
+    s, _ = ctx.drive(drv, ["-mode", "record", "-trace", tp, "-n", ctx.pick(10, 80), "-steps", ctx.pick(60, 100)], name="c07-record", timeout=T)
+    ok, consumed, total, r = ctx.validate("trie/TrieCommitTrace", tp, ntraces=s["traces"], timeout=T * 2)
+    if not ok:
+        ctx.reject_trace("trie/TrieCommitTrace", tp, consumed, r)
+    return ctx.finish(rule="MC: all (base, modified) key-value set pairs over 4 two-nibble keys with two value sizes, 3 hash-scheme generations; R: all Commit edges + simulated multi-generation behaviours (exact node sets); V: random 32-byte-key histories",
                       assumptions=["hashes opaque and injective in the model", "path store = raw rawdb key space; triedb backends only read back"])
